@@ -1519,6 +1519,12 @@ static void emit_data(Obj *prog) {
     if (var->is_function || !var->is_definition)
       continue;
 
+    // Static local variables and literals of a function that is not
+    // emitted are not emitted either; their initializers may refer to
+    // other functions that are not emitted.
+    if (var->owner && !var->owner->is_live)
+      continue;
+
     if (var->is_static)
       println("  .local %s", var->name);
     else
